@@ -26,11 +26,20 @@ fn lua_from_env() -> Lua {
     {
         "unsafe" => unsafe { Lua::unsafe_new() },
         "safe" => Lua::new(),
-        _ => Lua::new_with(
-            StdLib::COROUTINE | StdLib::TABLE | StdLib::STRING | StdLib::UTF8 | StdLib::MATH,
-            Default::default(),
-        )
-        .expect("failed to start Lua"),
+        _ => {
+            let lua = Lua::new_with(
+                StdLib::COROUTINE | StdLib::TABLE | StdLib::STRING | StdLib::UTF8 | StdLib::MATH,
+                Default::default(),
+            )
+            .expect("failed to start Lua");
+            // The base library is always loaded: remove its functions that read code from disk.
+            for name in ["dofile", "loadfile"] {
+                lua.globals()
+                    .set(name, mlua::Nil)
+                    .expect("failed to restrict Lua globals");
+            }
+            lua
+        }
     }
     // </block>
 }
